@@ -130,11 +130,13 @@ def _snap(view, base):
 CALLS = {}
 
 
-def call(name, args, opts=None, layouts=None, n=(1, 12), dtypes=None):
-    """args: list of (argname, kind); opts: dict optname -> list of values"""
+def call(name, args, opts=None, layouts=None, n=(1, 12), dtypes=None, edges=None):
+    """args: list of (argname, kind); opts: dict optname -> list of values; edges: argname -> special values that
+    one case in three plants into that (floating-point) argument: values at the rim of what the call accepts, where
+    a callee 'sanitises' or clips its input"""
     def deco(fn):
         CALLS[name] = {"fn": fn, "args": args, "opts": opts or {}, "layouts": layouts or LAYOUTS_1D, "n": n,
-                       "dtypes": dtypes or NUM_DTYPES}
+                       "dtypes": dtypes or NUM_DTYPES, "edges": edges or {}}
         return fn
     return deco
 
@@ -146,34 +148,39 @@ def _watch(A, name, arr):
 
 
 SKY2 = [("ra1", "lon"), ("dec1", "lat"), ("ra2", "lon"), ("dec2", "lat")]
+LON_EDGE, LAT_EDGE = [-10.0, 370.0, 720.0, 360.0, 0.0, -360.0], [90.0, -90.0, 0.0]
+SKY2_EDGES = {"ra1": LON_EDGE, "dec1": LAT_EDGE, "ra2": LON_EDGE, "dec2": LAT_EDGE}
+AB_EDGES = {"a": LON_EDGE, "b": LAT_EDGE}
 LAY0 = LAYOUTS_1D + ["0d"]
 LAY2 = LAYOUTS_1D + ["F2d", "C2d"]
 
 
-@call("coords.sphdist", SKY2, {"units": [["deg", "deg"], ["rad", "rad"], ["deg", "rad"]]})
+@call("coords.sphdist", SKY2, {"units": [["deg", "deg"], ["rad", "rad"], ["deg", "rad"]]}, edges=SKY2_EDGES)
 def _(es, A, o, ctx):
     return es.coords.sphdist(A["ra1"], A["dec1"], A["ra2"], A["dec2"], units=o["units"])
 
 
-@call("coords.gcirc", SKY2, {"getangle": [False, True]})
+@call("coords.gcirc", SKY2, {"getangle": [False, True]}, edges=SKY2_EDGES)
 def _(es, A, o, ctx):
     return es.coords.gcirc(A["ra1"], A["dec1"], A["ra2"], A["dec2"], getangle=o["getangle"])
 
 
-@call("coords.euler", [("a", "lon"), ("b", "lat")], {"select": [1, 2, 3, 4, 5, 6], "b1950": [False, True]}, layouts=LAY0)
+@call("coords.euler", [("a", "lon"), ("b", "lat")], {"select": [1, 2, 3, 4, 5, 6], "b1950": [False, True]}, layouts=LAY0,
+      edges=AB_EDGES)
 def _(es, A, o, ctx):
     return es.coords.euler(A["a"], A["b"], o["select"], b1950=o["b1950"])
 
 
 for _nm in ["eq2gal", "gal2eq", "eq2ec", "ec2eq", "ec2gal", "gal2ec"]:
     def _mk(nm):
-        @call("coords." + nm, [("a", "lon"), ("b", "lat")], {"b1950": [False, True], "dtype": ["f8", "f4"]}, layouts=LAY0)
+        @call("coords." + nm, [("a", "lon"), ("b", "lat")], {"b1950": [False, True], "dtype": ["f8", "f4"]}, layouts=LAY0,
+              edges=AB_EDGES)
         def _(es, A, o, ctx):
             return getattr(es.coords, nm)(A["a"], A["b"], b1950=o["b1950"], dtype=o["dtype"])
     _mk(_nm)
 
 
-@call("coords.eq2sdss", [("a", "lon"), ("b", "lat")], {"dtype": ["f8", "f4"]}, layouts=LAY0)
+@call("coords.eq2sdss", [("a", "lon"), ("b", "lat")], {"dtype": ["f8", "f4"]}, layouts=LAY0, edges=AB_EDGES)
 def _(es, A, o, ctx):
     return es.coords.eq2sdss(A["a"], A["b"], dtype=o["dtype"])
 
@@ -183,7 +190,8 @@ def _(es, A, o, ctx):
     return es.coords.sdss2eq(A["a"], A["b"], dtype=o["dtype"])
 
 
-@call("coords.eq2xyz", [("a", "lon"), ("b", "lat")], {"units": ["deg", "rad"], "stomp": [False, True]}, layouts=LAY0)
+@call("coords.eq2xyz", [("a", "lon"), ("b", "lat")], {"units": ["deg", "rad"], "stomp": [False, True]}, layouts=LAY0,
+      edges=AB_EDGES)
 def _(es, A, o, ctx):
     return es.coords.eq2xyz(A["a"], A["b"], units=o["units"], stomp=o["stomp"])
 
@@ -199,7 +207,8 @@ def _(es, A, o, ctx):
     return es.coords.rotate(o["ang"][0], o["ang"][1], o["ang"][2], A["ra"], A["dec"])
 
 
-@call("coords.shiftlon", [("lon", "lon")], {"shift": [None, 30.0, -400.0], "wrap": [True, False]}, layouts=LAY0)
+@call("coords.shiftlon", [("lon", "lon")], {"shift": [None, 30.0, -400.0], "wrap": [True, False]}, layouts=LAY0,
+      edges={"lon": LON_EDGE})
 def _(es, A, o, ctx):
     return es.coords.shiftlon(A["lon"], shift=o["shift"], wrap=o["wrap"])
 
@@ -296,7 +305,8 @@ def _(es, A, o, ctx):
     return es.numpy_util.unique(A["a"], values=o["values"])
 
 
-@call("numpy_util.rem_dup", [("a", "small"), ("flag", "data")], {"values": [False, True]})
+@call("numpy_util.rem_dup", [("a", "small"), ("flag", "data")], {"values": [False, True]},
+      edges={"flag": [float("nan"), float("inf"), float("-inf"), 1e300]})
 def _(es, A, o, ctx):
     return es.numpy_util.rem_dup(A["a"], A["flag"], values=o["values"])
 
@@ -353,7 +363,8 @@ def _(es, A, o, ctx):
 
 
 @call("htm.match", [("ra1", "lon_cl"), ("dec1", "lat_cl"), ("ra2", "lon_cl"), ("dec2", "lat_cl"), ("radius", "rad")],
-      {"maxmatch": [-1, 1, 2], "radscalar": [False, True], "tofile": [False, True]})
+      {"maxmatch": [-1, 1, 2], "radscalar": [False, True], "tofile": [False, True]},
+      edges={"radius": [180.0, 181.0, 200.0, 0.0]})
 def _(es, A, o, ctx):
     h = es.htm.HTM(7)
     rad = 0.05 if o["radscalar"] else A["radius"]
@@ -364,7 +375,7 @@ def _(es, A, o, ctx):
 
 
 @call("htm.Matcher", [("ra1", "lon_cl"), ("dec1", "lat_cl"), ("ra2", "lon_cl"), ("dec2", "lat_cl"), ("radius", "rad")],
-      {"maxmatch": [-1, 1], "radscalar": [False, True]})
+      {"maxmatch": [-1, 1], "radscalar": [False, True]}, edges={"radius": [180.0, 181.0, 200.0, 0.0]})
 def _(es, A, o, ctx):
     m = es.htm.Matcher(7, A["ra2"], A["dec2"])
     rad = 0.05 if o["radscalar"] else A["radius"]
@@ -422,7 +433,7 @@ def _(es, A, o, ctx):
     return w.get_jacobian(A["x"], A["y"], distort=o["distort"])
 
 
-@call("wcs.wrap_ra_diff", [("dra", "dra")], {}, layouts=LAY0)
+@call("wcs.wrap_ra_diff", [("dra", "dra")], {}, layouts=LAY0, edges={"dra": [180.0, -180.0, 540.0, 0.0, 180.00000000000003]})
 def _(es, A, o, ctx):
     return es.wcsutil.wrap_ra_diff(A["dra"])
 
@@ -451,7 +462,13 @@ def numeric_cases(draw):
         args[an] = {"dtype": draw(st.sampled_from(c["dtypes"])), "order": draw(st.sampled_from(["native", "native", "swapped"])),
                     "layout": lay}
     opts = {k: draw(st.sampled_from(v)) for k, v in sorted(c["opts"].items())}
-    return {"call": name, "n": n, "seed": draw(st.integers(0, 2 ** 31 - 1)), "args": args, "opts": opts}
+    case = {"call": name, "n": n, "seed": draw(st.integers(0, 2 ** 31 - 1)), "args": args, "opts": opts}
+    if c["edges"]:
+        case["edge"] = draw(st.booleans())
+        if case["edge"]:
+            for an in sorted(c["edges"]):
+                args[an]["dtype"] = draw(st.sampled_from(["f8", "f8", "f4"]))     # the special values are floats
+    return case
 
 
 def check_numeric(case, ctx):
@@ -474,6 +491,11 @@ def check_numeric(case, ctx):
                 base = np.asfortranarray(base)
             view = base
         else:
+            if case.get("edge") and an in c["edges"] and np.dtype(case["args"][an]["dtype"]).kind == "f":
+                sp = c["edges"][an]
+                vals = np.array(vals, dtype="f8")
+                for pos in rng.integers(0, vals.size, size=min(3, vals.size)).tolist():
+                    vals[pos] = sp[int(rng.integers(0, len(sp)))]
             view, base = _materialize(vals, case["args"][an])
         A[an] = view
         snaps.append((an, view, base, _snap(view, base)))
@@ -497,6 +519,8 @@ def check_numeric(case, ctx):
 
 def classify_numeric(case):
     labs = ["call:" + case["call"]]
+    if case.get("edge"):
+        labs.append("edge-values-planted")
     nt = False
     for an, v in case["args"].items():
         if v["order"] == "swapped" or v["layout"] in ("strided", "F2d") or v["dtype"] != "f8":
@@ -705,6 +729,6 @@ def classify_struct(case):
 
 
 SUBCHECKS = [
-    Subcheck("numeric", numeric_cases, check_numeric, classify_numeric, quick=12000, thorough=200000),
+    Subcheck("numeric", numeric_cases, check_numeric, classify_numeric, quick=16000, thorough=200000),
     Subcheck("structured", struct_cases, check_struct, classify_struct, quick=7500, thorough=100000),
 ]
